@@ -170,7 +170,10 @@ def main(tier, replay=None):
                 viol("addresses-changed:" + st[0], "case %d: stage %s changed the address list" % (k, stage))
             elif st[0] == "import-mnemonic":
                 hint_ex, hint_in = int(st[2]), int(st[3])
-                if ex != max(1, hint_ex) or inn != hint_in:
+                mu_ex, mu_in = (int(st[4]), int(st[5])) if len(st) > 5 else (-1, -1)
+                # the chain pays addresses beyond the hints (last paid index mu, -1 = none): the restore discovers them
+                # (the internal branch is scanned only when an internal hint > 0 is given: createManagerKeyScope)
+                if ex != max(1, hint_ex, mu_ex + 1) or inn != (max(hint_in, mu_in + 1) if hint_in > 0 else 0):
                     viol("import-mnemonic-counter", "case %d: stage %s: counters %s" % (k, stage, counters))
             prev_stage_addrs = A
             if st[0] == "import-keystore":
